@@ -213,8 +213,10 @@ def _search_counterexamples(world, con, inst, label, k0, failed, res, native, se
     # (1) bounded quantifier-free re-runs -> definite models -> native replay
     grid = size_grid(k0.size_names) if k0 is not None and k0.size_names else [{}]
     tried_models = 0
+    t_start = time.time()
+    budget = float(os.environ.get("PYVC_CEX_BUDGET_S", "90"))
     for sizes in grid:
-        if confirmed or tried_models >= 12:
+        if confirmed or tried_models >= 12 or time.time() - t_start > budget:
             break
         try:
             ctxs, kb = _run_paths(world, con, inst, "bounded", sizes=sizes)
@@ -246,6 +248,8 @@ def _search_counterexamples(world, con, inst, label, k0, failed, res, native, se
     # (2) random native search
     if not confirmed:
         for t in range(300):
+            if time.time() - t_start > 2 * budget:
+                break
             sizes = grid[t % len(grid)]
             st, kn = native_trial(world, con, inst, native, sizes=sizes, seed=seed * 7919 + t)
             if st == "fail":
